@@ -20,3 +20,4 @@ def run(prog, chk):
     C.unlink_idiom(prog, chk, "C03.c2", SEQ)
     C.clear_resets(prog, chk, "C03.c3", SEQ)
     C.swap_handover(prog, chk, "C03.c4", ["List", "PoolList", "Array"])
+    C.iterator_param_alias(prog, chk, "C03.d", SEQ)
